@@ -87,3 +87,82 @@ def occ (s : PState) (x : Nat) : Nat := s.pool.count x + (live s).count x
 def Inv (s : PState) : Prop := ∀ x, occ s x ≤ 1 ∧ (0 < occ s x → x < s.fresh)
 
 end KV.Model.Pool
+
+/-!
+## Pools and configuration
+
+A pooled object may keep options it was constructed with (`gzip.NewWriterLevel(w, level)`,
+`zstd.WithEncoderLevel`): `baked`.  `acquire key cfg reuse reapply`: a wrapper for configuration `cfg` takes an object
+from the pool named `key` (or constructs one, baking `cfg`); `reapply` = the options are assigned again after Get
+(snappy: `x.framed`, `x.encode`).  `close h` puts the object back into the pool it was taken from.
+The code is faithful to a POLICY when for every acquire `key = cfg ∨ reapply` — the pool key includes every option a
+pooled object keeps — which is the regenerated fact `gen_pool_keys` (pool owned by the Codec value, or options re-applied).
+-/
+namespace KV.Model.CfgPool
+
+structure Obj where
+  id : Nat
+  baked : Nat
+  deriving DecidableEq, Repr
+
+structure Handle where
+  key : Nat
+  cfg : Nat
+  obj : Obj
+  deriving DecidableEq, Repr
+
+structure St where
+  pool : List (Nat × Obj)
+  handles : List Handle
+  fresh : Nat
+  deriving DecidableEq, Repr
+
+inductive Ev where
+  | acquire (key cfg : Nat) (reuse reapply : Bool)
+  | close (h : Nat)
+  deriving DecidableEq, Repr
+
+def init : St := ⟨[], [], 0⟩
+
+def takeKey (key : Nat) : List (Nat × Obj) → Option (Obj × List (Nat × Obj))
+  | [] => none
+  | (k, o) :: rest =>
+    if k = key then some (o, rest)
+    else match takeKey key rest with
+      | some (o', rest') => some (o', (k, o) :: rest')
+      | none => none
+
+def step (s : St) : Ev → Option St
+  | .acquire key cfg reuse reapply =>
+    let fromPool := if reuse then takeKey key s.pool else none
+    match fromPool with
+    | some (o, rest) =>
+      let o' := if reapply then { o with baked := cfg } else o
+      some { s with pool := rest, handles := s.handles ++ [⟨key, cfg, o'⟩] }
+    | none => some { s with handles := s.handles ++ [⟨key, cfg, ⟨s.fresh, cfg⟩⟩], fresh := s.fresh + 1 }
+  | .close h =>
+    match s.handles[h]? with
+    | none => none
+    | some hd => some { s with handles := s.handles.eraseIdx h, pool := (hd.key, hd.obj) :: s.pool }
+
+def run (s : St) : List Ev → Option St
+  | [] => some s
+  | e :: es => match step s e with
+    | none => none
+    | some s' => run s' es
+
+/-- the policy of a pool: either every user re-applies its options after Get (`reapplies key`), or the pool belongs
+to one configuration (`cfg = key`) -/
+def policyEv (reapplies : Nat → Bool) : Ev → Bool
+  | .acquire key cfg _ reapply => (reapply == reapplies key) && (reapplies key || key == cfg)
+  | .close _ => true
+
+def policy (reapplies : Nat → Bool) (es : List Ev) : Bool := es.all (policyEv reapplies)
+
+/-- every wrapper works with an object configured as requested; objects that are not re-configured at Get sit in
+the pool of their own configuration -/
+def Inv (reapplies : Nat → Bool) (s : St) : Prop :=
+  (∀ hd ∈ s.handles, hd.obj.baked = hd.cfg ∧ (reapplies hd.key = false → hd.cfg = hd.key)) ∧
+  (∀ e ∈ s.pool, reapplies e.1 = false → e.2.baked = e.1)
+
+end KV.Model.CfgPool
